@@ -231,7 +231,9 @@ func (c *client) newRequest(ctx context.Context, body []byte) (request, error) {
 	req := request{Request: r}
 
 	switch c.compression {
-	case NoCompression:
+	default:
+		// NoCompression. An unknown Compression value is also sent uncompressed
+		// instead of leaving the request without a body (nil dereference on send).
 		r.ContentLength = (int64)(len(body))
 		req.bodyReader = bodyReader(body)
 	case GzipCompression:
